@@ -132,6 +132,26 @@ def newFromClass (c : NewClass) (etype : Ty) : NewPlan :=
         | some args => .new (tconNew c.ty args) expected
         | none => .error
 
+/-- the first random instantiation: when the expected type is a bare type constructor it is
+    replaced by `insts[0]`; returns the expected type, its `name` and the instantiations left -/
+def newStep1 (e1 : Ty) (ename : String) (insts : List Ty) : Option (Ty × String × List Ty) :=
+  if e1.isTCon then (match insts with | i :: rest => some (i, attrName i, rest) | [] => none)
+  else some (e1, ename, insts)
+
+/-- `gen_new` once a class is found and not blacklisted; the second random instantiation happens
+    when the class is generic and is not the class of the expected type -/
+def newWithClass (c : NewClass) (e1 : Ty) (ename : String) (insts : List Ty) : NewPlan :=
+  match newStep1 e1 ename insts with
+  | none => .error
+  | some (e2, n2, rest) =>
+      if !c.tparams.isEmpty && attrName c.ty != n2 then
+        (match rest with | i :: _ => newFromClass c i | [] => .error)
+      else newFromClass c e2
+
+/-- `BottomConstant(t)`: `t = None` for a type variable that is not in scope -/
+def newBottom (e1 : Ty) (ename : String) (tvnames : List String) : NewPlan :=
+  .bottom (if e1.isTVar && !tvnames.contains ename then none else some e1)
+
 /-- `gen_new` from `_get_subclass` on; `insts` = the results of the calls of
     `instantiate_type_constructor` in order, `black` = `_blacklisted_classes`, `tvnames` =
     `_get_type_variable_names()`, `ename` = `etype.name` -/
@@ -142,21 +162,8 @@ def genNewPlan (isFn : Bool) (etype : Ty) (ename : String) (cls : Option NewClas
   if beq anyT e1 then .trivial anyT
   else if beq voidT e1 then .trivial voidT
   else match cls with
-    | none => .bottom (if e1.isTVar && !tvnames.contains ename then none else some e1)
-    | some c =>
-      if black.contains ename then .bottom (if e1.isTVar && !tvnames.contains ename then none else some e1)
-      else
-        -- first random instantiation: the expected type is a bare type constructor
-        let step1 : Option (Ty × String × List Ty) :=
-          if e1.isTCon then (match insts with | i :: rest => some (i, attrName i, rest) | [] => none)
-          else some (e1, ename, insts)
-        match step1 with
-        | none => .error
-        | some (e2, n2, rest) =>
-          -- second: the class found is generic and is not the class of the expected type
-          if !c.tparams.isEmpty && attrName c.ty != n2 then
-            (match rest with | i :: _ => newFromClass c i | [] => .error)
-          else newFromClass c e2
+    | none => newBottom e1 ename tvnames
+    | some c => if black.contains ename then newBottom e1 ename tvnames else newWithClass c e1 ename insts
 
 /-- `ParameterizedType.get_type_variable_assignments()` -/
 def typeVarAssignments : Ty → TMap
